@@ -1181,6 +1181,111 @@ fn c05_inner(ctx: &Ctx, case: u64, acc: &mut Acc, lockstep: bool) -> Verdict {
     Ok(())
 }
 
+/// The crate's own stock configuration (`Config::new_lan(n)`: probe period 1 s, rtt 0.5 s, suspicion timeout
+/// 4 s x max(1, log10 n), announce-to-down every 65 s to 2 members, periodic announce every 30 s, periodic
+/// gossip every 200 ms to 3 members, notify_down_members on). With only two Down members announced to per
+/// period no tight bound is deterministic; the oracle is convergence within a generous 12 announce-to-down
+/// periods (observed maximum is reported), plus the Rejoin/Defunct/Active clauses.
+fn c05_stock(ctx: &Ctx, case: u64, acc: &mut Acc) -> Verdict {
+    let mut r = Rng64::derive(ctx.seed, 0xC05F, case);
+    let nmax = if ctx.tier == Tier::Quick { 6 } else { 10 };
+    let n = r.range(3, nmax) as usize;
+    let p = 2 * R;
+    let log = (n as f64).log10().max(1.0);
+    let cfg = Cfg {
+        p,
+        r: R,
+        k: 3,
+        tx: (((n + 1) as f64).log10() * 4.0) as u8,
+        s2d: (log * 4.0 * p as f64) as u64,
+        rda: 86_400_000_000,
+        mps: 1400,
+        notify_down: true,
+        pa: Some((30 * p, 1)),
+        pad: Some((65 * p, 2)),
+        pg: Some((p / 5, 3)),
+    };
+    let join = *r.pick(&[Join::SeqToFirst, Join::BurstToFirst, Join::Chain, Join::SeqToRandom]);
+    let Some(mut f) = formed_with(r.next(), n, &cfg, Renew::Bump, (1, R / 4), join, acc)? else {
+        acc.inconclusive += 1;
+        return Ok(());
+    };
+    let mut nop = |_: &Sim, _: usize, _: &CallRec| -> Result<(), V> { Ok(()) };
+    let side1 = 1 + r.usize(n - 1);
+    let mut idx: Vec<usize> = (0..n).collect();
+    r.shuffle(&mut idx);
+    let mut part = vec![0u8; n];
+    for &i in idx.iter().take(side1) {
+        part[i] = 1;
+    }
+    let t0 = f.sim.now;
+    f.sim.part = Some(part.clone());
+    let mut mutual = false;
+    for k in 1..=(8 * n as u64 + 40) {
+        f.sim.run_until(t0 + k * p, acc, &mut nop)?;
+        mutual = (0..n).all(|i| {
+            (0..n).all(|j| {
+                i == j || part[i] == part[j] || {
+                    let ja = f.sim.nodes[j].node.id().addr;
+                    f.sim.nodes[i].node.last.state.iter().any(|m| m.id().addr == ja && m.state() == State::Down)
+                }
+            })
+        });
+        if mutual {
+            break;
+        }
+    }
+    if !mutual {
+        acc.inconclusive += 1;
+        acc.tally("premise_mutual_down_not_reached", 1);
+        return Ok(());
+    }
+    let t_heal = f.sim.now + r.below(70 * p);
+    f.sim.run_until(t_heal, acc, &mut nop)?;
+    f.sim.part = None;
+    let a = 65 * p;
+    let what = format!("n={n} Config::new_lan({n}) split {side1}|{} sides {:?} joins {join:?}", n - side1, part);
+    let mut done = None;
+    for k in 0..=(12 * 65) {
+        f.sim.run_until(t_heal + k * p, acc, &mut nop)?;
+        if f.sim.full_view() {
+            done = Some(k);
+            break;
+        }
+    }
+    let Some(k) = done else {
+        let missing: Vec<(usize, usize)> = (0..n).flat_map(|i| (0..n).map(move |j| (i, j))).filter(|&(i, j)| i != j && !f.sim.lists(i, j)).take(6).collect();
+        return Err(V::new("C05/not-converged", format!("{what}: 12 announce-to-down periods after the heal these (who, misses whom) pairs remain: {missing:?}")));
+    };
+    let _ = a;
+    acc.max("stock_config_announce_periods_to_converge_x10", k * 10 / 65 + 1);
+    let t_settle = f.sim.now + 5 * p;
+    f.sim.run_until(t_settle, acc, &mut nop)?;
+    ensure!(f.sim.full_view(), "C05/view-lost-again", "{what}: the full view was reached but lost again within 5 periods");
+    for (i, x) in f.sim.nodes.iter().enumerate() {
+        ensure!(!x.notes.iter().any(|(_, nn)| *nn == N::Defunct), "C05/defunct", "{what}: instance {i} went Defunct");
+        let mut cur = Id::new(i as u16, 0);
+        let mut last_rejoin = None;
+        for (k, (_, nn)) in x.notes.iter().enumerate() {
+            if let N::Rejoin(id) = nn {
+                ensure!(id.addr == cur.addr && id.gen > cur.gen, "C05/rejoin-identity", "{what}: instance {i} reported Rejoin({id:?}) while being {cur:?}");
+                cur = *id;
+                last_rejoin = Some(k);
+            }
+        }
+        ensure!(x.node.id() == cur, "C05/rejoin-identity", "{what}: instance {i} is {:?} but its Rejoin notifications end at {cur:?}", x.node.id());
+        if let Some(k) = last_rejoin {
+            ensure!(x.notes[k..].iter().any(|(_, nn)| *nn == N::Active), "C05/no-active-after-rejoin", "{what}: instance {i} never reported Active after its last Rejoin");
+        }
+        ensure!(cur.gen <= 6, "C05/renewal-storm", "{what}: instance {i} renewed {} times", cur.gen);
+    }
+    f.sim.tally_into(acc);
+    acc.tally("stock_config_partitions_healed", 1);
+    acc.nontrivial(fp(&("stock", case, n, what.clone())));
+    acc.sample(|| json!({"workload": "stock", "case": what, "converged_after_periods": k}));
+    Ok(())
+}
+
 /// Two partitions in a row, with remove_down_after chosen so that the forget-timers of the first round of Down
 /// declarations (they name the identities of *before* the first renewal) fire while the second partition is on
 /// and every cross pair is mutually Down again: they must not disturb the Down records of the renewed
@@ -1372,6 +1477,7 @@ pub fn c05() -> Check {
         workloads: vec![
             Workload { name: "partition", f: c05_case, quick: 16_000, thorough: 200_000, flav: Flav::Checked },
             Workload { name: "lockstep", f: c05_lockstep, quick: 16_000, thorough: 200_000, flav: Flav::Checked },
+            Workload { name: "stock", f: c05_stock, quick: 1_600, thorough: 40_000, flav: Flav::Checked },
             Workload { name: "repartition", f: c05_repartition, quick: 2_400, thorough: 20_000, flav: Flav::Checked },
         ],
         exhaustive: false,
